@@ -115,6 +115,8 @@ def gen_case(prng: Prng, tier: str) -> dict:
         case["patch"]["centers_from_catalog"] = True  # patch_centers=<another catalog>
     if mode == "apply" and source != "random" and prng.chance(1, 6):
         case["patch"]["extra_pid_column"] = True  # patch_name given as well: must be ignored
+    if source == "fits" and prng.chance(1, 2):
+        case["fits_hdu"] = prng.choice([2, 3])  # the table sits behind decoy extensions (reader option hdu)
     if source == "parquet" and chunksize is not None and prng.chance(1, 2):
         # row-group boundaries that coincide with chunk boundaries
         case["pq_rowgroup"] = prng.choice([chunksize, max(1, chunksize // 2), 2 * chunksize, 3 * chunksize])
